@@ -1,0 +1,31 @@
+//go:build verif
+// +build verif
+
+package service
+
+import (
+	"com.tuntun.rangers/node/src/middleware/types"
+	"com.tuntun.rangers/node/src/storage/account"
+)
+
+// VerifC20IterEntry is one step of the registry iterator as the consensus
+// readers see it: the record (nil when the trie value is not a miner record)
+// and whether Current() flagged it (abort miner / parse error).
+type VerifC20IterEntry struct {
+	Miner   *types.Miner
+	Flagged bool
+}
+
+// VerifC20Iterate walks the miner registry of one type in iterator order.
+func (mm *MinerManager) VerifC20Iterate(kind byte, accountdb *account.AccountDB) []VerifC20IterEntry {
+	res := make([]VerifC20IterEntry, 0)
+	iter := mm.minerIterator(kind, accountdb)
+	if iter == nil || iter.iterator == nil {
+		return res
+	}
+	for iter.Next() {
+		m, err := iter.Current()
+		res = append(res, VerifC20IterEntry{Miner: m, Flagged: err != nil})
+	}
+	return res
+}
